@@ -217,12 +217,12 @@ func (t *stdioClientTransport) sendRequest(ctx context.Context, req *JSONRPCRequ
 	t.pendingRequests[reqID] = respChan
 	t.pendingMutex.Unlock()
 
-	// Clean up on exit.
+	// Clean up on exit. The channel is never closed: the reader goroutine may still be about to deliver
+	// into it, and a waiter is always released by one of the other cases of the select below.
 	defer func() {
 		t.pendingMutex.Lock()
 		delete(t.pendingRequests, reqID)
 		t.pendingMutex.Unlock()
-		close(respChan)
 	}()
 
 	// Send request.
@@ -656,10 +656,11 @@ func (t *stdioClientTransport) close() error {
 		}
 	}
 
-	// Close all pending request channels.
+	// Forget all pending requests. Their waiters have been released by the cancelled context above and
+	// report "transport closed"; closing the channels here as well would hand them a nil response and
+	// make them (or the reader goroutine) close or use a closed channel.
 	t.pendingMutex.Lock()
-	for reqID, ch := range t.pendingRequests {
-		close(ch)
+	for reqID := range t.pendingRequests {
 		delete(t.pendingRequests, reqID)
 	}
 	t.pendingMutex.Unlock()
